@@ -89,7 +89,8 @@ Definition parse_one (M : cmodel) (self : cls) (f : field) : items :=
                          col_cont := match f_shape f with SSet => "typing.Set" | _ => "typing.List" end;
                          col_tymod := ep_module (f_ep f); col_tyname := ep_name (f_ep f);
                          col_sql := 2; col_nullable_arg := is_optional w |}];
-         i_fks := []; i_rels := []; i_assoc := []; i_imports := ["typing_extensions"]; i_err := false |}
+         i_fks := []; i_rels := []; i_assoc := []; i_imports := ["typing_extensions"; ep_module (f_ep f)] (* d7df295 *);
+         i_err := false |}
   | A_create_one_to_many_relationship =>
       match target_of M f with
       | Some tc =>
@@ -185,6 +186,19 @@ Definition gen_sx (s : schema) : sx :=
   SL [SB (s_error s); strs_set (s_imports s); SL (map assoc_sx (s_assoc s)); SL (map table_sx (s_tables s))].
 
 (* ---------------------------------------------------------------- (C) what SQLAlchemy makes of a schema (compared only) *)
+(* column and foreign-key attribute names of the tables above t in the DAO hierarchy *)
+Fixpoint inherited_attrs (fuel : nat) (s : schema) (t : table) : list string :=
+  match fuel with
+  | O => []
+  | S k => match t_base t with
+           | None => []
+           | Some b => match find (fun u => String.eqb (t_name u) b) (s_tables s) with
+                       | Some u => map col_name (t_builtin u ++ t_custom u) ++ map fk_name (t_fks u) ++ inherited_attrs k s u
+                       | None => []
+                       end
+           end
+  end.
+
 Inductive attr := AtPk | AtCol (c : column) | AtFk (k : fkcol) | AtRel (r : rel).
 Definition attrs_of (t : table) : list (string * attr) :=
   [(t_pk t, AtPk)] ++ map (fun c => (col_name c, AtCol c)) (t_builtin t ++ t_custom t)
@@ -207,19 +221,6 @@ Fixpoint root_has_disc (fuel : nat) (s : schema) (t : table) : bool :=
            | Some b => match find (fun u => String.eqb (t_name u) b) (s_tables s) with
                        | Some u => root_has_disc k s u
                        | None => false
-                       end
-           end
-  end.
-
-(* column and foreign-key attribute names of the tables above t in the DAO hierarchy *)
-Fixpoint inherited_attrs (fuel : nat) (s : schema) (t : table) : list string :=
-  match fuel with
-  | O => []
-  | S k => match t_base t with
-           | None => []
-           | Some b => match find (fun u => String.eqb (t_name u) b) (s_tables s) with
-                       | Some u => map col_name (t_builtin u ++ t_custom u) ++ map fk_name (t_fks u) ++ inherited_attrs k s u
-                       | None => []
                        end
            end
   end.
@@ -282,7 +283,10 @@ Definition unused_assoc (s : schema) : list sx :=
 (* ORMatic._check_generated_names (bd9b8e0): the same table name twice, the same attribute of a DAO twice, or `metadata` *)
 Definition refused (s : schema) : bool :=
   negb (str_nodup (table_names s ++ map a_name (s_assoc s)))
-  || existsb (fun t => negb (str_nodup (attr_names t)) || str_in "metadata" (attr_names t)) (s_tables s).
+  || existsb (fun t => negb (str_nodup (attr_names t)) || str_in "metadata" (attr_names t)
+                       (* 5e556b1: or named like a column of an ancestor's table *)
+                       || existsb (fun n => str_in n (inherited_attrs (S (List.length (s_tables s))) s t)) (attr_names t))
+             (s_tables s).
 
 Definition model_obs (s : schema) : sx :=
   if refused s then SL [SZ 2] else
